@@ -1223,7 +1223,7 @@ func (r *runner) execOp(op *Op, tx *txCtx) {
 		r.resetFailed()
 		r.disk.NextEpoch(simdisk.ImagePowerLoss, 0, false)
 		simrt.SetEpoch(r.disk.Epoch + 1000)
-		dm := r.applyDamage(&Damage{Current: "keep", Manifest: "keep", Blocks: op.Slot, BlockSel: uint64(op.Ms) + 1, Frac: uint32(op.Ms)})
+		dm := r.applyDamage(&Damage{Current: "keep", Manifest: "keep", Blocks: op.Slot, BlockSel: uint64(op.Ms) + 1, Frac: uint32(op.Ms), FilterOnly: op.Via == "filter"})
 		if len(dm) > 0 {
 			r.rotted = true
 			r.faulty = true
